@@ -391,6 +391,104 @@ where
      'new': '''    unsafe impl<MutexType: RawMutex> Send
         for GenericSharedSemaphoreAcquireFuture<MutexType>''',
      'expect': {'C16': ['C16.L2|GenericSharedSemaphoreAcquireFuture']}},
+    # ---------------------------------------------------------------- C11
+    {'name': 'revert-fix-D3', 'passes_suite': True, 'edits': [
+        {'file': 'src/channel/oneshot_broadcast.rs',
+         'old': '''                if self.inner.receivers.fetch_sub(1, Ordering::Release) != 1 {
+                    return;
+                }
+                core::sync::atomic::fence(Ordering::Acquire);
+''', 'new': ''},
+        {'file': 'src/channel/oneshot_broadcast.rs',
+         'old': '''                let old_size =
+                    self.inner.receivers.fetch_add(1, Ordering::Relaxed);
+                if old_size > (core::isize::MAX) as usize {
+                    panic!("Reached maximum refcount");
+                }
+''', 'new': ''}],
+     'expect': {'C11': ['C11.R5|GenericOneshotBroadcastReceiver|uncounted-close']}},
+    {'name': 'state-receiver-close-on-nonlast', 'file': 'src/channel/state_broadcast.rs',
+     'old': '''                if self.inner.receivers.fetch_sub(1, Ordering::Release) != 1 {''',
+     'new': '''                if self.inner.receivers.fetch_sub(1, Ordering::Release) == 0 {''',
+     'expect': {'C11': ['C11.R5']}},
+    {'name': 'mpmc-sender-drop-decrements-receivers', 'file': 'src/channel/mpmc.rs',
+     'old': '''                if self.inner.senders.fetch_sub(1, Ordering::Release) != 1 {''',
+     'new': '''                if self.inner.receivers.fetch_sub(1, Ordering::Release) != 1 {''',
+     'expect': {'C11': ['C11.R5']}},
+    {'name': 'mpmc-close-reopens', 'file': 'src/channel/mpmc.rs',
+     'old': '''        if self.is_closed {
+            return CloseStatus::AlreadyClosed;
+        }
+        self.is_closed = true;''',
+     'new': '''        if self.is_closed {
+            self.is_closed = !self.buffer.is_empty();
+            return CloseStatus::AlreadyClosed;
+        }
+        self.is_closed = true;''',
+     'expect': {'C11': ['C11.R1', 'C11.R2']}},
+    {'name': 'mpmc-try-receive-closed-first', 'file': 'src/channel/mpmc.rs',
+     'old': '''        if !self.buffer.is_empty() {
+            let val = self.buffer.pop();''',
+     'new': '''        if self.is_closed {
+            return Err(TryReceiveError::Closed);
+        }
+        if !self.buffer.is_empty() {
+            let val = self.buffer.pop();''',
+     'expect': {'C11': ['C11.R4']}},
+    {'name': 'mpmc-close-drains-only-receivers', 'file': 'src/channel/mpmc.rs',
+     'old': '''        wake_recv_waiters(&mut self.receive_waiters);
+        wake_send_waiters(&mut self.send_waiters);
+
+        CloseStatus::NewlyClosed''',
+     'new': '''        wake_recv_waiters(&mut self.receive_waiters);
+
+        CloseStatus::NewlyClosed''',
+     'expect': {'C11': ['C11.R2']}},
+    {'name': 'state-send-ignores-closed', 'file': 'src/channel/state_broadcast.rs',
+     'old': '''        if self.is_closed || self.state_id.0 == core::u64::MAX {''',
+     'new': '''        if self.state_id.0 == core::u64::MAX {''',
+     'expect': {'C11': ['C11.R3']}},
+    {'name': 'mpmc-send-parks-on-closed-full', 'file': 'src/channel/mpmc.rs',
+     'old': '''                if self.is_closed {
+                    let value = wait_node.value.take();
+                    return (Poll::Ready(()), value, None);
+                }
+
+                if !self.buffer.can_push() {''',
+     'new': '''                if self.is_closed && self.buffer.can_push() {
+                    let value = wait_node.value.take();
+                    return (Poll::Ready(()), value, None);
+                }
+
+                if !self.buffer.can_push() {''',
+     'expect': {'C11': ['C11.R3']}},
+    {'name': 'oneshot-close-no-drain', 'file': 'src/channel/oneshot.rs',
+     'old': '''        self.is_fulfilled = true;
+
+        // Wakeup all waiters
+        wake_waiters(&mut self.waiters);
+
+        CloseStatus::NewlyClosed''',
+     'new': '''        self.is_fulfilled = true;
+
+        CloseStatus::NewlyClosed''',
+     'expect': {'C11': ['C11.R2']}},
+    {'name': 'mpmc-last-receiver-no-clear', 'file': 'src/channel/mpmc.rs',
+     'old': '''                self.inner.channel.inner.lock().clear();''',
+     'new': '''''',
+     'expect': {'C11': ['C11.R6']}},
+    {'name': 'oneshot-send-closed-swallows', 'file': 'src/channel/oneshot.rs',
+     'old': '''        if self.is_fulfilled {
+            return Err(ChannelSendError(value));
+        }
+
+        self.value = Some(value);''',
+     'new': '''        if self.is_fulfilled && self.value.is_some() {
+            return Err(ChannelSendError(value));
+        }
+
+        self.value = Some(value);''',
+     'expect': {'C11': ['C11.R3']}},
 ]
 
 BENIGN = []
